@@ -90,6 +90,27 @@ def handle (s : Sexp) : String :=
     let p := if mode.nat?.getD 0 == 0 then C26.algTransPinned v steps else C26.algTransFixed v steps
     let r := C26.run p (fl.map fun _ => false)
     s!"({so r.2} {showList sb r.1})"
+  | .list (.atom "ext" :: rest) =>
+    match (Sexp.list rest).natList with
+    | [mode, drv, nodesOk, valid, counter] =>
+      let n : C26.ExtractState → Bool := fun _ => b nodesOk
+      let v : C26.ExtractState → Bool := fun _ => b valid
+      let p := if mode == 0 then C26.extractPinned (b drv) n v else C26.extractFixed (b drv) n v
+      let r := C26.run p ⟨counter, false, false⟩
+      s!"({so r.2} {r.1.counter} {sb r.1.driver} {sb r.1.region})"
+    | _ => "bad-ext"
+  | .list (.atom "kmi" :: rest) =>
+    match (Sexp.list rest).natList with
+    | [ex, same, valid] =>
+      let r := C26.run (C26.kernelModuleInline (b ex) (b same) (fun _ => b valid)) ⟨false, false⟩
+      s!"({so r.2} {sb r.1.prepared} {sb r.1.inlined})"
+    | _ => "bad-kmi"
+  | .list (.atom "sign" :: rest) =>
+    match (Sexp.list rest).natList with
+    | [valid] =>
+      let r := C26.run (C26.sign2code (fun _ => b valid)) ⟨false, false, false, false, false⟩
+      s!"({so r.2} {sb r.1.expanded} {sb r.1.finished})"
+    | _ => "bad-sign"
   | .list (.atom "tile" :: rest) => handleTile C26.Tiling.tilingProg rest
   | .list (.atom "chunk" :: rest) => handleTile C26.Tiling.chunkTransProg rest
   | .list (.atom "swap" :: rest) => handleTile (fun _ => C26.Tiling.swapTransProg) rest
